@@ -225,6 +225,56 @@ fn run(kind: &str, input: &Value) -> Value {
             }
             if kind == "rrow" { Value::Array(rows) } else { json!(h & ((1u64 << 61) - 1)) }
         }
+        // in = [which, ctor, setters, script]: builder construction sequences.
+        // which 0 = OperationBuilder, 1 = CloudIOExecutor; ctor 0 = new(), 1 = default();
+        // a setter is [0, budget] = .with_retry(cfg(budget)) or [1, tmode] = .with_timeout(1 h if
+        // tmode = 0, zero if tmode = 1); the closure always makes the clock advance, so a zero
+        // timeout in force is overrun and a 1 h timeout is not.  out = [calls, class, origin+1]
+        "bseq" => {
+            let which = input[0].as_i64().unwrap();
+            let ctor = input[1].as_i64().unwrap();
+            let setters = input[2].as_array().unwrap();
+            let script = ints(&input[3]);
+            let cfg_of = |b: u64| RetryConfig {
+                max_attempts: b as u32,
+                initial_delay_ms: 0,
+                max_delay_ms: 0,
+                backoff_multiplier: 2.0,
+            };
+            let t_of = |m: i64| if m == 0 { HOUR } else { Duration::ZERO };
+            let mut calls = 0usize;
+            let op = || {
+                let i = calls;
+                calls += 1;
+                spin();
+                op_result(sym_at(&script, i), i)
+            };
+            let r: CloudResult<i64> = if which == 0 {
+                let mut b = if ctor == 0 { OperationBuilder::new() } else { OperationBuilder::default() };
+                for st in setters {
+                    b = if st[0].as_i64().unwrap() == 0 {
+                        b.with_retry(cfg_of(st[1].as_u64().unwrap()))
+                    } else {
+                        b.with_timeout(t_of(st[1].as_i64().unwrap()))
+                    };
+                }
+                b.execute(op)
+            } else {
+                let mut b = if ctor == 0 { CloudIOExecutor::new() } else { CloudIOExecutor::default() };
+                for st in setters {
+                    b = if st[0].as_i64().unwrap() == 0 {
+                        b.with_retry(cfg_of(st[1].as_u64().unwrap()))
+                    } else {
+                        b.with_timeout(t_of(st[1].as_i64().unwrap()))
+                    };
+                }
+                b.execute(op)
+            };
+            match r {
+                Ok(v) => json!([calls as i64, 0, v + 1]),
+                Err(e) => json!([calls as i64, code_of(&e.kind), origin_of(&e) + 1]),
+            }
+        }
         // in = [budget, script]: plain retry_with_backoff, budgets up to u32::MAX
         "rbig" => {
             let budget = input[0].as_u64().unwrap() as u32;
@@ -448,6 +498,48 @@ fn generate(seed: u64, tier: Tier, em: &mut Emitter) {
                 for a in 0..NSYM {
                     let nt = b >= 2 && (1..=4).contains(&a) && w < 10;
                     em.case("rrow", json!([w, b, [a], 2, overrun]), nt, &["exhaustive", "retry"]);
+                }
+            }
+        }
+    }
+
+    // 2b. builder construction sequences: every order and repetition of the setters (two retry
+    //     budgets, an ample and a zero timeout) up to length 3 (thorough 4) x both builders x
+    //     scripts incl. a slow Ok under a timeout that is forced past
+    {
+        let mut alpha: Vec<Value> = vec![json!([0, 2]), json!([0, 4]), json!([1, 0]), json!([1, 1])];
+        if thorough {
+            alpha.push(json!([0, 0]));
+        }
+        let maxlen = if thorough { 4 } else { 3 };
+        let mut seqs: Vec<Vec<Value>> = vec![vec![]];
+        let mut cur: Vec<Vec<Value>> = vec![vec![]];
+        for _ in 0..maxlen {
+            let mut next = Vec::new();
+            for q in &cur {
+                for x in &alpha {
+                    let mut t = q.clone();
+                    t.push(x.clone());
+                    next.push(t);
+                }
+            }
+            seqs.extend(next.iter().cloned());
+            cur = next;
+        }
+        let scripts: [&[i64]; 6] = [&[0], &[1, 0], &[1, 1, 1, 0], &[1, 1, 1, 1, 1], &[7], &[2, 9]];
+        let mut k = 0i64;
+        for q in &seqs {
+            let kinds: std::collections::BTreeSet<i64> =
+                q.iter().map(|x| x[0].as_i64().unwrap()).collect();
+            for which in 0..2 {
+                for sc in scripts {
+                    k += 1;
+                    em.case(
+                        "bseq",
+                        json!([which, k % 2, q, sc]),
+                        kinds.len() == 2,
+                        &["exhaustive", "builder-sequence"],
+                    );
                 }
             }
         }
